@@ -18,6 +18,7 @@ import (
 	"strconv"
 	"strings"
 	"sync"
+	"syscall"
 	"time"
 
 	"github.com/go-kid/ioc/syslog"
@@ -52,7 +53,23 @@ func main() {
 // ---------------------------------------------------------------------------------- worker
 
 func worker() {
-	syslog.Level(syslog.LvPanic) // once per process: logging code still runs, only Panicf (which must keep panicking as at the default level) prints
+	verbose := false
+	if d0 := props.Registry[os.Getenv("VERIF_PROP")]; d0 != nil {
+		for _, p := range d0.Parts {
+			if p.Name == os.Getenv("VERIF_PART") && p.Verbose {
+				verbose = true
+			}
+		}
+	}
+	if verbose {
+		if null, err := os.OpenFile(os.DevNull, os.O_WRONLY, 0); err == nil {
+			syscall.Dup3(int(null.Fd()), 2, 0)
+		}
+		syslog.Level(syslog.LvTrace)
+	} else {
+		syslog.Level(syslog.LvPanic)
+	}
+	_ = syslog.LvPanic // once per process: logging code still runs, only Panicf (which must keep panicking as at the default level) prints
 	prop, tier, part := os.Getenv("VERIF_PROP"), env("VERIF_TIER", "quick"), os.Getenv("VERIF_PART")
 	d := props.Registry[prop]
 	if d == nil {
